@@ -88,6 +88,11 @@ func Conc(r *core.Rng, p ConcParams) *prog.Program {
 			pg.Steps = append(pg.Steps, prog.Step{K: prog.SMerge, Task: t, DB: r.Intn(pg.DBs)})
 		}
 	}
+	if p.Backup && r.Bool(0.004) {
+		// a blob with a long run of zeros among the data to be copied
+		pg.Cfg.SegSize = 1 << 20
+		pg.Steps = append(pg.Steps, prog.Step{K: prog.STx, Task: 0, DB: 0, Ops: []prog.Op{{K: "put", B: g.Bkts[0], Key: g.pick(g.Keys), Val: g.Val(), Big: r.Range(140000, 200000), Zero: true}, {K: "put", B: g.Bkts[0], Key: g.pick(g.Keys), Val: g.Val()}}})
+	}
 	if p.Backup {
 		t := pg.Tasks
 		pg.Tasks++
